@@ -330,6 +330,13 @@ def directed(run):
     for ps in PARAMS:
         add("params%s" % (ps,), store_kind="ref", user={"script": [USER_OK] * 2},
             ops=[reg_op(rng, params=ps), reg_op(rng, params=ps, origin="https://other.org", rp_id=None)])
+    # entries whose `type` is not "public-key" (the library looks at `alg` only): a non-empty list stays non-empty -
+    # no silent fall-back to the defaults - whatever the types are
+    for ps, tys in [((-257,), (False,)), ((-257, -8), (False, False)), ((-7,), (False,)), ((-257, -7), (False, True)), ((-257, -7), (True, False)),
+                    ((-8, -257), (False, True))]:
+        o1, o2 = reg_op(rng, params=ps), reg_op(rng, params=ps, cd={"mode": "hash", "hash": "11" * 32})
+        o1["req"]["params_ty"] = list(tys); o2["req"]["params_ty"] = list(tys)
+        add("params-types%s%s" % (ps, tys), store_kind="ref", user={"script": [USER_OK] * 2}, ops=[o1, o2])
     for clen in CHALLENGES + [1000]:
         for k in range(3):
             add("ch%d/%d" % (clen, k), store_kind="memory", user={"script": [USER_OK]},
